@@ -19,7 +19,7 @@ impl Check for C02 {
     }
 
     fn strategy(&self, tier: Tier) -> BoxedStrategy<PairScenario> {
-        let p = GenParams { max_ticks: tier.pick(150, 400), max_sends: tier.pick(5, 8), max_frags: tier.pick(3, 8), tail: true, modes: [1, 1, 1, 4], ..GenParams::default() };
+        let p = GenParams { max_ticks: tier.pick(150, 400), max_sends: tier.pick(5, 8), max_frags: tier.pick(3, 8), tail: true, chatter: true, modes: [1, 1, 1, 4], ..GenParams::default() };
         prop_oneof![7 => scenario_strategy(&p), 2 => bulk_scenario_strategy(tier.pick(100, 300), tier.pick(40, 120), true, true)].boxed()
     }
 
@@ -36,13 +36,14 @@ impl Check for C02 {
     }
 
     fn rule(&self) -> String {
-        "case = SimPair scenario as in C01 (all four modes, faults on data / ack / sync frames in both directions, loss bursts, pauses) followed by a fair phase (no faults, both endpoints stepping at a generated cadence). Safety at every delivery: no packet is delivered while an earlier Reliable packet of its channel is undelivered. Bounded liveness: the fair phase must reach quiescence (every Reliable packet delivered exactly once, is_send_pending()==false, send_buffer_size()==0) without any 15-virtual-minute interval in which no progress indicator (deliveries, queue lengths, buffer size, allocation counters) moves. Non-trivial = a frame carrying (part of) a Reliable packet, or an ack frame, was dropped or corrupted, so a retransmission was actually needed. Distinct = distinct serialised scenario.".into()
+        "case = SimPair scenario as in C01 (all four modes, faults on data / ack / sync frames in both directions, loss bursts, pauses) followed by a fair phase (no faults, both endpoints stepping at a generated cadence). Safety at every delivery: no packet is delivered while an earlier Reliable packet of its channel is undelivered. Bounded liveness: the fair phase must reach quiescence (every Reliable packet delivered exactly once, is_send_pending()==false, send_buffer_size()==0) without any 15-virtual-minute interval in which no progress indicator (deliveries, queue lengths, buffer size, allocation counters) moves. In about 4 of 10 scenarios one application keeps submitting a small packet (any mode, every step up to every 1.5 s) during the fair phase until the OTHER direction has nothing left to do; then only the silent direction is judged, by its own progress indicators, and the talker's packets join the send history. Non-trivial = a frame carrying (part of) a Reliable packet, or an ack frame, was dropped or corrupted, so a retransmission was actually needed. Distinct = distinct serialised scenario.".into()
     }
 
     fn assumptions(&self) -> Vec<String> {
         vec![
             "liveness is checked as bounded liveness in virtual time: stall window 15 virtual minutes, overall cap 6 virtual hours (reaching the cap while still progressing is counted as class slow_cap, not as a violation)".into(),
             "payload identity convention of C01".into(),
+            "known finding D26 is excluded by shape (stall under a talking peer with the starved endpoint's flush credit below 64 bytes over the last 5-10 minutes of the stall window) and counted as class known_d26_acks_exhaust_send_credit".into(),
         ]
     }
 
@@ -59,8 +60,14 @@ impl Check for C02 {
         let stats = [sim.hc[0].verif_stats(), sim.hc[1].verif_stats()];
         let pending = [sim.hc[0].is_send_pending(), sim.hc[1].is_send_pending()];
         let sbs = [sim.hc[0].send_buffer_size(), sim.hc[1].send_buffer_size()];
+        let chatted = sim.chatter_packets;
+        let talker = sim.chatter.clone();
+        let talking_stall = sim.chatter_stall_max_credit;
         let trace = sim.finish();
         let mut classes: Vec<&'static str> = Vec::new();
+        if chatted > 0 {
+            classes.push("tail_with_talking_peer");
+        }
 
         let mut retrans_needed = false;
         for s in 0..2 {
@@ -84,6 +91,27 @@ impl Check for C02 {
                 }
                 TailOutcome::Stalled { since_us } => {
                     let undelivered = trace.subs[s].iter().filter(|sub| sub.mode == 3 && m.sub_delivered[sub.idx as usize].is_none()).count();
+                    if let (Some(max_credit), Some(t)) = (talking_stall, talker.as_ref()) {
+                        // the tail stalled while the peer application was still talking: only the silent direction is judged
+                        if s == t.e as usize {
+                            continue;
+                        }
+                        // D26: at a send rate so low that acknowledging the peer's frames costs more than the credit
+                        // that accrues, acknowledgements (emitted first) take all of it and neither data nor sync
+                        // frames are ever emitted. Recognised by the credit never having reached 64 bytes.
+                        let key = "oracle:c02:stalled:talking_peer:acks_exhaust_send_credit";
+                        if max_credit < 64 && tolerate_known(key) {
+                            classes.push("known_d26_acks_exhaust_send_credit");
+                            continue;
+                        }
+                        return CaseResult::fail(
+                            if max_credit < 64 { key } else { "oracle:c02:stalled:talking_peer" },
+                            format!(
+                                "direction {}->{}: fair network since t={} us, endpoint {} keeps submitting one {}-byte packet (mode {}) every {} us; no progress in the other direction since t={} us (now {} us): {} Reliable packets undelivered, is_send_pending={}, send_buffer_size={}, largest flush credit in the last 5 to 10 minutes {} bytes, stats={:?}",
+                                s, 1 - s, trace.tail_start_us.unwrap_or(0), t.e, t.size, t.mode, t.gap_us, since_us, trace.end_us, undelivered, pending[s], sbs[s], max_credit, stats[s]
+                            ),
+                        );
+                    }
                     if undelivered > 0 || pending[s] || sbs[s] != 0 {
                         return CaseResult::fail(
                             "oracle:c02:stalled",
